@@ -49,7 +49,9 @@ IDGC = dict(FULL, ops=["mk_group", "rename", "gc", "reopen"], uid_reuse=True, de
             caps={"groups": 3, "objects": 2, "data_per_object": 2, "entities": 8})
 # re-assigning data types (shared, then un-shared) with purges of unused types in between
 RETYPE = dict(FULL, ops=["rm_ws", "gc", "reopen", "values"], retype=True, defer=False, pg_foreign=False, ws2=False)
-ALPHAS = {"RETYPE": RETYPE, "IDGC": IDGC, "FULLND": FULLND, "FULL": FULL, "STRUCT": STRUCT, "EDIT": EDIT, "DEL": DEL, "DELCORE": DELCORE, "IDS": IDS, "GCOPS": GCOPS}
+# copies only (with and without children, same and other workspace): identifier policy of copies
+COPYONLY = dict(FULL, ops=["copy", "pg_add"], defer=False, pg_foreign=False, retype=False, copy_data=False)
+ALPHAS = {"COPYONLY": COPYONLY, "RETYPE": RETYPE, "IDGC": IDGC, "FULLND": FULLND, "FULL": FULL, "STRUCT": STRUCT, "EDIT": EDIT, "DEL": DEL, "DELCORE": DELCORE, "IDS": IDS, "GCOPS": GCOPS}
 
 DROP_ASC = {"uid_order": "asc", "policy": "drop"}
 HOLD_DESC = {"uid_order": "desc", "policy": "hold"}
